@@ -890,6 +890,7 @@ func areaReceiver(r *Rng, n int, dir string) (*AreaOut, error) {
 		out.OracleN += h.oracleN
 	}
 	receiverReappear(out)
+	receiverRunSurvivesListErrors(out)
 	out.Cases = len(cases)
 	out.Distinct = nontriv
 	for i := 0; i < 3 && i < len(cases); i++ {
